@@ -67,7 +67,7 @@ def ResOK {α : Type} (r : Except Err α) : Prop := ∀ e, r = .error e → NPE 
 theorem SafeP.pure {α : Type} {Q : α → Prop} (a : α) (h : Q a) : SafeP (pure a : SM α) Q :=
   ⟨fun s hs => ⟨rfl, rfl, hs, (by intro e he; cases he), by intro b hb; cases hb; exact h⟩⟩
 
-theorem SafeP.pureT {α : Type} (a : α) : SafeP (pure a : SM α) (fun _ => True) := SafeP.pure a trivial
+theorem SafeP.pureT {α : Type} (a : α) : SafeP (Pure.pure a : SM α) (fun _ => True) := SafeP.pure a trivial
 
 theorem SafeP.ite {α : Type} {Q : α → Prop} {c : Prop} [Decidable c] {a b : SM α}
     (ha : SafeP a Q) (hb : SafeP b Q) : SafeP (if c then a else b) Q := by
@@ -152,8 +152,8 @@ macro "safe_with" ih:ident : tactic =>
     | exact SafeP.pureT _
     | exact SafeP.getS
     | (refine SafeP.modS _ ?_; frame_fun)
-    | refine SafeP.attempt ?_
-    | refine SafeP.bind ?_ ?_
+    | (show SafeP _ _; apply SafeP.attempt)
+    | (show SafeP _ _; apply SafeP.bind)
     | (refine SafeP.fail _ ?_; first | (intro s; simp [Scan.syntaxErr]; done) | (apply_assumption; rfl))
     | refine SafeP.ite ?_ ?_
     | intro _
@@ -309,5 +309,216 @@ macro_rules | `(tactic| safe_lemma) => `(tactic| apply safe_skipIV)
 
 theorem safe_readN : ∀ n acc, Safe (readN n acc) := by safe_rec readN
 macro_rules | `(tactic| safe_lemma) => `(tactic| apply safe_readN)
+
+/-! ### opening and closing an eexec section -/
+
+/-- outside eexec sections and replay mode `readByte` is `readByteRaw`, which only fails
+after recording a sticky error -/
+theorem readByte_plain (s : Scanner) (he : s.eexec = 0) (hr : s.regurgitate = false) :
+    (∀ e, (readByte s).1 = .error e → (readByte s).2.err ≠ none) ∧
+    (readByte s).2.peek = s.peek := by
+  have e1 : readByte s = readByteRaw s := by
+    unfold readByte
+    rw [bind_eq]
+    simp [Scan.getS, he]
+  rw [e1]
+  unfold readByteRaw
+  cases hsrc : s.src <;> cases herr : s.err <;> simp [hr, hsrc, herr]
+
+theorem peekN_short (n : Nat) : ∀ fuel s, ErrOK s → s.eexec = 0 → s.regurgitate = false →
+    n ≤ s.peek.length + fuel →
+    ∀ bb, (peekN n fuel s).1 = .ok bb → bb.length < n → (peekN n fuel s).2.err ≠ none := by
+  intro fuel
+  induction fuel with
+  | zero =>
+    intro s _ _ _ hn bb hb hl
+    unfold peekN at hb
+    rw [bind_eq] at hb
+    simp [Scan.getS, pure, ExceptT.pure, ExceptT.mk, StateT.pure] at hb
+    subst hb
+    simp at hl
+    omega
+  | succ f ih =>
+    intro s hs he hr hn bb hb hl
+    unfold peekN at hb ⊢
+    rw [bind_eq] at hb ⊢
+    simp only [Scan.getS] at hb ⊢
+    by_cases hc : s.peek.length ≥ n
+    · simp only [hc, if_true] at hb
+      simp [pure, ExceptT.pure, ExceptT.mk, StateT.pure] at hb
+      subst hb
+      simp at hl
+      omega
+    · simp only [hc, if_false] at hb ⊢
+      rw [bind_eq] at hb ⊢
+      have hp := readByte_plain s he hr
+      have hsafe := safe_readByte.run s hs
+      unfold SafeAt at hsafe
+      unfold Scan.attempt at hb ⊢
+      generalize readByte s = p at hp hsafe hb
+      obtain ⟨r, s1⟩ := p
+      obtain ⟨g1, g2, g3, g4, g5⟩ := hsafe
+      dsimp only at hp g1 g2 g3 hb ⊢
+      cases r with
+      | error e =>
+        dsimp only at hb ⊢
+        rw [bind_eq]
+        simp only [Scan.getS]
+        exact hp.1 e rfl
+      | ok b =>
+        dsimp only at hb ⊢
+        rw [bind_eq] at hb ⊢
+        simp only [Scan.modS] at hb ⊢
+        refine ih _ ?_ ?_ ?_ ?_ bb hb hl
+        · exact g3
+        · rw [← he]; exact g1
+        · rw [← hr]; exact g2
+        · simp only [List.length_append, List.length_cons, List.length_nil]
+          rw [hp.2]; omega
+
+theorem beginEexec_busy (s : Scanner) (h : s.eexec ≠ 0) :
+    beginEexec s = (.error (.ps "invalidaccess"), s) := by
+  unfold beginEexec
+  rw [bind_eq]
+  simp only [Scan.getS]
+  have hc : (s.eexec != 0) = true := by simp [h]
+  simp only [hc, if_true]
+  rw [bind_eq]
+  rfl
+
+/-- what `beginEexec` guarantees -/
+structure BeginPost (r : Except Err Unit) (s' : Scanner) : Prop where
+  err : ErrOK s'
+  res : ResOK r
+  reg : s'.eexec = 0 → s'.regurgitate = false
+  ok : r = .ok () → s'.eexec ≠ 0 ∧ s'.regurgitate = false
+
+theorem beginEexec_idle (s : Scanner) (hs : ErrOK s) (he : s.eexec = 0) (hr : s.regurgitate = false) :
+    BeginPost (beginEexec s).1 (beginEexec s).2 := by
+  unfold beginEexec
+  rw [bind_eq]
+  simp only [Scan.getS]
+  have hc : (s.eexec != 0) = false := by simp [he]
+  simp only [hc, Bool.false_eq_true, if_false]
+  rw [bind_eq]
+  have h1 := (safe_skipEexecSpace (fuelOf s)).run s hs
+  unfold SafeAt at h1
+  generalize skipEexecSpace (fuelOf s) s = p1 at h1
+  obtain ⟨r1, s1⟩ := p1
+  obtain ⟨a1, a2, a3, a4, a5⟩ := h1
+  dsimp only at a1 a2 a3
+  cases r1 with
+  | error e =>
+    exact ⟨a3, (by intro e' h'; cases h'; exact a4 _ rfl), (by intro _; rw [a2]; exact hr), (by intro h; cases h)⟩
+  | ok u =>
+    dsimp only
+    rw [bind_eq]
+    have h2 := (safe_peekN 4 5).run s1 a3
+    have hshort := peekN_short 4 5 s1 a3 (by rw [a1]; exact he) (by rw [a2]; exact hr) (by omega)
+    unfold SafeAt at h2
+    generalize peekN 4 5 s1 = p2 at h2 hshort
+    obtain ⟨r2, s2⟩ := p2
+    obtain ⟨b1, b2, b3, b4, b5⟩ := h2
+    dsimp only at b1 b2 b3 hshort
+    cases r2 with
+    | error e =>
+      exact ⟨b3, (by intro e' h'; cases h'; exact b4 _ rfl), (by intro _; rw [b2, a2]; exact hr), (by intro h; cases h)⟩
+    | ok bb =>
+      dsimp only
+      by_cases hl : bb.length < 4
+      · simp only [hl, if_true]
+        rw [bind_eq]
+        simp only [Scan.getS]
+        cases herr : s2.err with
+        | none => exact absurd herr (hshort bb rfl hl)
+        | some e =>
+          dsimp only
+          rw [bind_eq]
+          simp only [Scan.fail]
+          exact ⟨b3, (by intro e' h'; cases h'; exact b3 e herr), (by intro _; rw [b2, a2]; exact hr), (by intro h; cases h)⟩
+      · simp only [hl, if_false]
+        rw [bind_eq]
+        simp only [Scan.modS]
+        rw [bind_eq]
+        generalize hs3 : Scanner.mk s2.src s2.fault s2.peek true (if (!bb.all isHexDigit) = true then 2 else 1)
+          Cipher.eexecR s2.line s2.col s2.crSeen s2.dsc s2.err = s3
+        have e3 : s3.eexec ≠ 0 := by subst hs3; dsimp only; split <;> omega
+        have ok3 : ErrOK s3 := by subst hs3; exact b3
+        have h3 := (safe_skipIV 4).run s3 ok3
+        unfold SafeAt at h3
+        generalize skipIV 4 s3 = p4 at h3
+        obtain ⟨r4, s4⟩ := p4
+        obtain ⟨c1, c2, c3, c4, c5⟩ := h3
+        dsimp only at c1 c2 c3
+        cases r4 with
+        | error e =>
+          exact ⟨c3, (by intro e' h'; cases h'; exact c4 _ rfl), (by intro h0; rw [c1] at h0; exact absurd h0 e3),
+            (by intro h; cases h)⟩
+        | ok u =>
+          exact ⟨c3, (by intro e' h'; cases h'), (by intro h0; exact absurd (c1 ▸ h0) e3),
+            (by intro _; exact ⟨by show s4.eexec ≠ 0; rw [c1]; exact e3, rfl⟩)⟩
+
+theorem beginEexec_post (s : Scanner) (h : ScOK s) : BeginPost (beginEexec s).1 (beginEexec s).2 := by
+  by_cases he : s.eexec = 0
+  · exact beginEexec_idle s h.err he (h.reg he)
+  · rw [beginEexec_busy s he]
+    exact ⟨h.err, (by intro e h'; cases h'; exact npe_ps _), h.reg, (by intro h'; cases h')⟩
+
+theorem endEexec_eq (s : Scanner) : endEexec s = (.ok (), { s with eexec := 0 }) := rfl
+
+/-! ### scanned tokens are simple objects -/
+
+/-- an object without references: fine in every heap -/
+def Simple (o : Obj) : Prop := ∀ h res, objOK h res o
+
+def TokOK : Tok → Prop
+  | .obj o => Simple o
+  | .str _ => True
+
+theorem simple_op (n : Name) : Simple (.op n) := fun _ _ => trivial
+theorem simple_name (n : Name) : Simple (.name n) := fun _ _ => trivial
+theorem simple_int (n : Int) : Simple (.int n) := fun _ _ => trivial
+theorem simple_real (n : UInt64) : Simple (.real n) := fun _ _ => trivial
+
+theorem parseNumber_simple {bs : List UInt8} {x : Obj} (h : parseNumber bs = some x) : Simple x := by
+  unfold parseNumber at h
+  split at h
+  · cases h; exact simple_int _
+  · dsimp only at h
+    split at h
+    · rename_i r hr
+      split at hr
+      · split at hr
+        · cases hr; cases h; exact simple_real _
+        · cases hr; cases h
+      · cases hr
+    · split at h
+      · cases h; exact simple_int _
+      · cases h
+
+theorem failSticky_any {α : Type} {R : α → Prop} (bb : List UInt8) :
+    SafeP (do
+      let s ← getS
+      match (if bb.length < 2 then s.err else none) with
+      | some e => (fail e : SM α)
+      | none => fail syntaxErr) R := by
+  refine ⟨fun s h => SafeAt.getS_bind ?_⟩
+  split
+  · rename_i e he
+    refine (SafeP.fail e ?_).run s h
+    split at he
+    · exact h e he
+    · cases he
+  · exact (SafeP.fail _ (npe_ps _)).run s h
+macro_rules | `(tactic| safe_lemma) => `(tactic| exact failSticky_any _)
+
+theorem scanToken_tok : SafeP scanToken TokOK := by
+  unfold scanToken
+  safe_auto
+  all_goals first
+    | exact SafeP.pure _ trivial
+    | exact SafeP.pure _ (simple_op _)
+    | exact SafeP.pure _ (simple_name _)
+    | exact SafeP.pure _ (parseNumber_simple (by assumption))
 
 end PsVerif.Proofs.WFState
